@@ -2,6 +2,7 @@ import Driver.Util
 import NixModel.Pure.Frame
 import NixModel.Pure.FrameRec
 import NixModel.Pure.FrameBytes
+import NixModel.Pure.FrameFx
 open Lean Nix Nix.Frame
 
 namespace Driver.C16
@@ -82,8 +83,10 @@ def rowsOutside (nonAtomic : Bool) (ts : List ColType) (rows : List (List Val)) 
   rows.any (fun r => (ts.zip r).any (fun p => cellOutside nonAtomic p.1 p.2))
 
 /-- The driver runs the **byte-level** machine of `Pure/FrameBytes.lean` (text cells stored as UTF-8 bytes, reads =
-    raw selection + `_convert_string_cols`); `C16_storage_simulates` / `C16_storage_reads` prove it equal to the
-    abstract model the property theorems are stated on. -/
+    raw selection + `_convert_string_cols`), with `append_rows`, `write_column` and `append_column` in their
+    effect-by-effect form of `Pure/FrameFx.lean` (two conversion stages, roll-back handlers);
+    `C16_storage_simulates` / `C16_storage_reads` / `C16_rollbacks_restore` prove it equal to the abstract model the
+    property theorems are stated on. -/
 abbrev St := Option SFrame
 
 /-- what `frame[:]` plus the schema reports show: the converted table -/
@@ -191,20 +194,20 @@ def handle (s : St) (j : Json) : St × Json :=
         | none => (s, bad "C16: handle")
       | Json.str "append_rows", [d] =>
         match rows? d with
-        | some d => if rowsOutside false f.types d then outside else wrote (sstep f (.appendRows d))
+        | some d => if rowsOutside false f.types d then outside else wrote (fxAppendRows f d [])
         | none => (s, bad "C16: append_rows")
       | Json.str "append_rows", [d, fm] =>
         match rows? d with
         | some d =>
           match recOf? fm none d with
-          | some r => if rowsOutside false f.types d then outside else wrote (sstep f (OpR.toOp (.appendRowsRec r)))
+          | some r => if rowsOutside false f.types d then outside else wrote (fxAppendRows f r.tuples [])
           | none => (s, bad "C16: append_rows form")
         | none => (s, bad "C16: append_rows")
       | Json.str "append_column", [c, Json.str n, t] =>
         match row? c, optOf? ty? t with
         | some c, some t =>
           let tt := match t, c with | some t, _ => t | none, v :: _ => typeOfVal v | none, [] => .i64
-          if c.any (cellOutside false tt) then outside else wrote (sstep f (.appendColumn c n t))
+          if c.any (cellOutside false tt) then outside else (let p := fxAppendColumn ⟨f, none⟩ c n t; wrote (p.1.data, p.2))
         | _, _ => (s, bad "C16: append_column")
       | Json.str "write_rows", [d, ix] =>
         match rows? d, ints? ix with
@@ -231,7 +234,7 @@ def handle (s : St) (j : Json) : St × Json :=
         | _, _ => (s, bad "C16: write_row_flat")
       | Json.str "write_column", [c, ix, n] =>
         match row? c, optOf? jInt? ix, optOf? str? n with
-        | some c, some ix, some n => wrote (sstep f (.writeColumn c ix n))
+        | some c, some ix, some n => wrote (fxWriteColumn f c ix n)
         | _, _, _ => (s, bad "C16: write_column")
       | Json.str "write_cell_pos", [c, p] =>
         match val? c, ints? p with
